@@ -158,7 +158,9 @@ func TestC16_Monitor(t *testing.T) {
 				w.fail("OnInitialize received %v, the publisher's cache at readiness held %v", got, initWant)
 			}
 		}
+		everBlocked := false
 		if handlerMode == "blocked" && !closed {
+			everBlocked = true
 			m.cb.block()
 			w.h("handler of the monitor blocks")
 		}
@@ -249,6 +251,12 @@ func TestC16_Monitor(t *testing.T) {
 				put()
 			}
 			w.checkQuiet()
+		}
+		if everBlocked && w.plog.Overruns() > 0 {
+			// the handler was blocked and the library logged a buffer overrun: events were dropped by design
+			// (Refilters of the publisher and barrier markers count against the buffer as well, which the
+			// estimate above does not cover: DESIGN.md 10.14)
+			overflow = true
 		}
 		// judge the callback log against the witness
 		recs, ninit, initAt, overlap, afterDone := m.cb.snapshot()
